@@ -267,8 +267,8 @@ class SR:
         key = "rcp" + d.sexpr()
         if key not in CTX.memo:
             r = CTX.fresh("rcp")
+            CTX.oblig.append((d != 0, len(CTX.cons)))          # to be shown from what is known BEFORE the defining constraint (which itself implies d != 0)
             CTX.cons.append(r * d == 1)
-            CTX.oblig.append(d != 0)
             CTX.memo[key] = r
             rad = CTX.memo.get("radicand" + d.sexpr())
             if rad is not None:          # reciprocal of a square root: (1/sqrt(e))^2 * e == 1 is implied; stating it spares nlsat the derivation
@@ -297,8 +297,8 @@ class SR:
         key = "sqrt" + e.sexpr()
         if key not in CTX.memo:
             r = CTX.fresh("sqrt")
+            CTX.oblig.append((e >= 0, len(CTX.cons)))
             CTX.cons += [r >= 0, r * r == e]
-            CTX.oblig.append(e >= 0)
             CTX.memo[key] = r
             CTX.memo["radicand" + r.sexpr()] = e
         return SR(CTX.memo[key])
@@ -346,7 +346,7 @@ class SRFloor(SR):
 
     def __init__(s, num, den):
         s.num, s.den = num, den
-        CTX.oblig.append(den > 0)
+        CTX.oblig.append((den > 0, len(CTX.cons)))
 
     @property
     def e(s):
@@ -480,8 +480,10 @@ def discharge(rep: Report, label: str, paths, timeout=120, replay=None, expect_s
     for pi, p in enumerate(paths):
         tasks.append((pi, "path-feasible", None, "vacuity"))
         if denominators:
-            for k, ob in enumerate(p["oblig"]):
-                tasks.append((pi, f"defined#{k}", z3.Not(ob), "goal"))
+            for k, (ob, upto) in enumerate(p["oblig"]):
+                # definedness of the k-th division / square root: decided under the constraints that precede it (assumptions and earlier branch
+                # decisions); the operation's own defining constraint and everything after it would make the question vacuous
+                tasks.append((pi, f"defined#{k}", z3.Not(ob), ("defined", upto)))
         for g in p["goals"]:
             name, neg = g[0], g[1]
             tasks.append((pi, name, neg, "control" if name in expect_sat else "goal"))
@@ -493,7 +495,8 @@ def discharge(rep: Report, label: str, paths, timeout=120, replay=None, expect_s
         while pending and len(running) < width:
             t = pending.pop(0)
             pi, name, neg, kind = t
-            running.append((_race(paths[pi]["cons"], [] if neg is None else [neg], True), time.time(), t))
+            cons = paths[pi]["cons"][:kind[1]] if isinstance(kind, tuple) else paths[pi]["cons"]
+            running.append((_race(cons, [] if neg is None else [neg], True), time.time(), t))
         still = []
         for race, t0, t in running:
             res, fin = _poll(race)
